@@ -244,7 +244,7 @@ fn cmd_check(args: &[String]) -> i32 {
             "misuse_double_spends_seen_by_public_reads": s.misuse_clashes,
             "other_events": {
                 "deliveries": s.delivers, "state_merges": s.merges, "snapshots": s.snapshots, "anti_entropy_syncs": s.syncs,
-                "edits_from_held_reads": s.held_edits, "removes": s.removes, "edits_at_non_causally_closed_replicas": s.noncausal_gen,
+                "edits_from_held_reads": s.held_edits, "reads_taken_at_another_replica": s.foreign_reads, "removes": s.removes, "edits_at_non_causally_closed_replicas": s.noncausal_gen,
                 "probes": s.probes, "probe_cases": s.probe_cases,
             },
             "scenarios": scen,
